@@ -3,6 +3,7 @@ import Sudachi.Proofs.LatticeRec
 import Sudachi.Proofs.LatticeI32
 import Sudachi.Proofs.LatticeLex
 import Sudachi.Proofs.TotalPathCost
+import Sudachi.Proofs.RowWrap
 import Sudachi.Props.C04
 /-!
 # C02 — The chosen segmentation is a minimum-cost lattice path (Viterbi optimality)
@@ -508,6 +509,22 @@ theorem chosen_path_cost_is_stored_minimum (len : Nat) (hlen : len ≤ 65535) (h
     ∃ path, Total.topPath rows (len + 1) (pe, pi) [] = .ok path ∧ Total.ChainFrom conn bos.r 0 path ∧
       c = Total.pathCostFrom conn bos.r path + conn (Total.chainEnd bos.r 0 path).1 0 :=
   Total.chosen_path_cost conn len hlen nodes hnodes hlen0 hcnt rows ents hb c pe pi he
+
+/-- **ROW-WRAP end to end (the pinned tree's `u16` row index, kernel-checked on a small-width instance).**  `Total.buildAllW W`
+/ `connectEosW W` are the lattice of `Model/Total.lean` with the back-pointer's row index stored as `i % W`; for `W = 2^32` they
+ARE the model (`Total.buildAllW_u32`, `connectEosW_u32`).  A text of two characters, five candidates over the first character
+(costs 50, 40, 30, 20, 10) and one over the second: with width 4 (standing for 65536) the lattice stores the right minimum 10
+and `fill_top_path` returns the chain through the FIRST candidate, whose recomputed cost is 50 - the returned path is not a
+cheapest path, `chosen_path_cost_is_stored_minimum` fails without its row bound; with the width of the tree both are 10.
+(At full size the harness ran it on the real tokenizer: 16400 letters, 65600 candidates in one row; directed case `row-wrap`.) -/
+theorem row_wrap_returns_dearer_path_counterexample :
+    Total.wrapOutcome 4 = some (10, 50) ∧ Total.wrapOutcome 4294967296 = some (10, 10) ∧
+    (∀ ns rows acc, Total.buildAllW 4294967296 Total.addI32 Total.I32_MAX conn ns rows acc =
+      Total.buildAll Total.addI32 Total.I32_MAX conn ns rows acc) ∧
+    (∀ rows k, Total.connectEosW 4294967296 Total.addI32 Total.I32_MAX conn rows k =
+      Total.connectEos Total.addI32 Total.I32_MAX conn rows k) :=
+  ⟨Total.row_wrap_returns_dearer_path.1, Total.row_wrap_returns_dearer_path.2,
+    Total.buildAllW_u32 Total.addI32 Total.I32_MAX conn, Total.connectEosW_u32 Total.addI32 Total.I32_MAX conn⟩
 
 /-- **C02 for the executed fixed-width lattice: the returned path is a cheapest path.**  Under the side condition of
 `i32_lattice_eq_model` (connection costs and word costs in `i16`, candidates non-empty and inside a text of 1..32767
